@@ -210,6 +210,12 @@ func sequentialHistory(r *rand.Rand, kind string, weighted bool, wm weightMode, 
 					}
 				}
 			}
+			if r.Intn(3) == 0 {
+				// a member is identified by its host: the caller's description may have changed in
+				// other fields since it was installed (the registry changed its weight, say)
+				e.Weight = e.Weight%7 + 1
+				e.Timeout += 1000
+			}
 			hist = append(hist, op{Kind: "remove", Hosts: []string{e.Host}})
 			var err error
 			if !guarded(kind, weighted, hist, func() { err = sel.Remove(e) }) {
@@ -287,6 +293,16 @@ func rotationCheck(sel selector.Selector, m *selref.Model, weighted bool, hist [
 	got := map[string]int{}
 	okk := guarded("roundrobin", weighted, hist, func() {
 		for i := 0; i < k*cycle; i++ {
+			if i == (k*cycle)/2 && len(m.Eps) > 0 {
+				// updates that are refused leave the set — and with it the rotation — as it is:
+				// adding a host that is already a member, removing one that is not
+				if err := sel.Add(m.Eps[i%len(m.Eps)]); err == nil {
+					got["ADD-OF-A-MEMBER-ACCEPTED"]++
+				}
+				if err := sel.Remove(selref.EP("10.250.250.250", 1, 0)); err == nil {
+					got["REMOVE-OF-A-STRANGER-ACCEPTED"]++
+				}
+			}
 			e, err := sel.Select(selref.Msg{})
 			if err != nil {
 				got["ERR"]++
@@ -829,7 +845,7 @@ func main() {
 	rep = run
 	run.SetRule("(a) seeded sequential histories of Refresh/Add/Remove/Select (length<=200, universes 1..64, weight modes none/static-positive/static-hostile/mixed) on roundrobin, random, modhash, consistent hash (Ketama and default) x weighted/unweighted against the ordered-member model; (b) rotation / weighted-cycle counts vs the formula after update bursts and for a fixed list + random weight vectors (incl. all-zero, all-negative, sum<-100, MaxInt32); (c) child process: concurrent histories (<=8 clients) checked with porcupine against the membership model, exact concurrent rotation counts, stress with updaters. A case is one history / weight vector / concurrent history; distinct by (selector, mode, final member list) or vector.")
 	run.Assume("weighted-cycle formula is judged for all-positive static weights only; with non-positive weights only membership and absence of crashes are judged")
-	run.Assume("removes use the stored endpoint value (as the endpoint manager does) or a non-member")
+	run.Assume("removes name a member by its host; a third of them with a description whose weight and timeout differ from the installed one")
 	runChild(run, "seq", time.Duration(run.Pick(8, 60))*time.Minute)
 	run.Sample(map[string]interface{}{"kind": "weight-vector", "weights": []int32{5, 1000}, "expect_cycle": "R=100: counts {0:1 (max(1,floor(5*100/1000)=0)), 1:100}"})
 	run.Sample(map[string]interface{}{"kind": "sequential-history", "ops": []op{{Kind: "refresh", Hosts: []string{"10.0.0.1", "10.0.0.2"}}, {Kind: "select", Code: 7}, {Kind: "remove", Hosts: []string{"10.0.0.1"}}, {Kind: "select", Code: 7}}})
